@@ -8,7 +8,11 @@
 // grows and its versions only increase; a precommit majority for a block
 // moves Voting to Committing and opens (h+1, 0) / (h+1, 1); a nil precommit
 // majority (or 100 % of precommits without a majority) advances the round and
-// attaches the final state of the dead round as NilVotedRound; a minority of
+// queues the final state of the dead round as a NilVotedRound (one per update,
+// oldest first, exactly like gossipViewManager.AddNilVotedRound/MarkSent: when
+// several rounds die while the strategy is busy, the later ones go out in
+// updates that carry only NilVotedRound, with or without RoundSessionChanges,
+// or together with whatever views changed meanwhile); a minority of
 // votes in the next-round view makes voting jump there (no NilVotedRound);
 // equivocating validators sign a second target (equal signer count, different
 // signature set); like the kernel's gossipViewManager the simulator only
@@ -257,6 +261,8 @@ type oracle struct {
 	items map[string]*item
 	order []string
 	prev  map[string]roleSummary
+
+	nvrAlone bool // the update being observed carries nothing but a NilVotedRound
 }
 
 func voteKey(kind int, h uint64, r uint32, hash string, keyID, sig []byte) string {
@@ -284,6 +290,8 @@ func (o *oracle) observe(upd int, role string, v *mview) {
 		switch {
 		case role == roleNVR && upd == 0:
 			return "nil-voted-round-in-first-update"
+		case role == roleNVR && o.nvrAlone:
+			return "nil-voted-round-in-update-without-other-views"
 		case role == roleNVR:
 			return "nil-voted-round"
 		case upd == 0:
@@ -342,6 +350,7 @@ func (o *oracle) observe(upd int, role string, v *mview) {
 
 type stats struct {
 	updates, views, nvr, commits, advances, jumps, coalesced int64
+	nvrQueuedBehind, nvrOnly, nvrOnlyWithRSC, nvrWithViews   int64
 	equivocations, equalCountChanges, viewSwitches           int64
 	unknownHashVotes                                         int64
 }
@@ -358,7 +367,9 @@ type sim struct {
 	appHash byte
 
 	committing, voting, next mview
-	nvr                      *mview
+	// nil-voted rounds not yet handed to the strategy, oldest first; an update
+	// carries one of them (gossipViewManager.NilVotedRound + queuedNilVotedRounds).
+	nvrQueue []*mview
 
 	in       chan tmelink.NetworkViewUpdate
 	stratEnd <-chan struct{}
@@ -538,7 +549,10 @@ func (s *sim) advance() {
 	s.st.advances++
 	s.st.viewSwitches++
 	snap := s.voting // the maps are never touched again: voting is replaced below
-	s.nvr = &snap
+	if len(s.nvrQueue) > 0 {
+		s.st.nvrQueuedBehind++
+	}
+	s.nvrQueue = append(s.nvrQueue, &snap)
 	s.shiftRound()
 }
 
@@ -621,10 +635,12 @@ func (s *sim) deliver() bool {
 		s.committing.dirty = false
 		seen = append(seen, obs{roleCommitting, s.committing})
 	}
-	if s.nvr != nil {
-		u.NilVotedRound = s.vrv(s.nvr)
-		seen = append(seen, obs{roleNVR, *s.nvr})
-		s.nvr = nil
+	if len(s.nvrQueue) > 0 {
+		// one nil-voted round per update, oldest first
+		nv := s.nvrQueue[0]
+		s.nvrQueue = s.nvrQueue[1:]
+		u.NilVotedRound = s.vrv(nv)
+		seen = append(seen, obs{roleNVR, *nv})
 		s.st.nvr++
 	}
 	if s.voting.dirty {
@@ -644,10 +660,28 @@ func (s *sim) deliver() bool {
 		s.failure = "harness: first update without voting view"
 		return false
 	}
-	u.RoundSessionChanges = []tmelink.RoundSessionChange{{Height: s.voting.h, Round: s.voting.r, State: tmelink.RoundSessionStateActive}}
+	nvrAlone := u.NilVotedRound != nil && len(seen) == 1
+	withRSC := true
+	if nvrAlone {
+		// A queued nil-voted round goes out on its own as soon as the strategy
+		// reads again; the kernel's pending round session changes were flushed
+		// with the previous update, unless MarkSent just expired old grace
+		// sessions. Both shapes alternate (starting shape by validator count).
+		withRSC = (s.st.nvrOnly+int64(s.n))%2 == 1
+		s.st.nvrOnly++
+		if withRSC {
+			s.st.nvrOnlyWithRSC++
+		}
+	} else if u.NilVotedRound != nil {
+		s.st.nvrWithViews++
+	}
+	if withRSC {
+		u.RoundSessionChanges = []tmelink.RoundSessionChange{{Height: s.voting.h, Round: s.voting.r, State: tmelink.RoundSessionStateActive}}
+	}
 	if !s.send(u) {
 		return false
 	}
+	s.orc.nvrAlone = nvrAlone
 	for i := range seen {
 		s.orc.observe(d.Index, seen[i].role, &seen[i].v)
 		d.Views = append(d.Views, seen[i].v.desc(seen[i].role))
@@ -670,7 +704,7 @@ func (s *sim) finish() bool {
 	s.fx.SignProposal(s.ctx, &ph, 0)
 	s.voting = freshView(sentinelHeight, 0, tmconsensus.CommitProof{Proofs: map[string][]gcrypto.SparseSignature{}})
 	s.voting.phs = []tmconsensus.ProposedHeader{ph}
-	s.committing.dirty, s.next.dirty, s.nvr = false, false, nil
+	s.committing.dirty, s.next.dirty, s.nvrQueue = false, false, nil
 	if !s.deliver() {
 		return false
 	}
@@ -694,13 +728,14 @@ func pick(rng *rand.Rand, set []int, k int) []int {
 func (s *sim) randomEvent(rng *rand.Rand, pEquiv float64) {
 	type choice struct {
 		w    int
-		act  int // 0 ph, 1 prevote, 2 precommit
+		act  int // 0 ph, 1 prevote, 2 precommit, 3 nil-precommit burst
 		role string
 	}
 	choices := []choice{
 		{3, 0, roleVoting}, {1, 0, roleNext},
 		{6, 1, roleVoting}, {1, 1, roleNext}, {1, 1, roleCommitting},
 		{5, 2, roleVoting}, {1, 2, roleNext}, {2, 2, roleCommitting},
+		{2, 3, roleVoting},
 	}
 	tot := 0
 	for _, c := range choices {
@@ -721,6 +756,22 @@ func (s *sim) randomEvent(rng *rand.Rand, pEquiv float64) {
 	if c.act == 0 {
 		if len(v.phs) < 3 {
 			s.addPH(c.role, rng.IntN(s.n))
+		}
+		return
+	}
+	if c.act == 3 {
+		// one precommit message carrying enough nil precommits to end the round
+		// (the whole network timed out): rounds can die back to back, faster
+		// than the strategy reads.
+		var fresh []int
+		for i := 0; i < s.n; i++ {
+			if _, ok := v.votes[kindPrecommit][""][i]; !ok {
+				fresh = append(fresh, i)
+			}
+		}
+		need := 2*s.n/3 + 1 - len(v.votes[kindPrecommit][""])
+		if need > 0 && need <= len(fresh) {
+			s.addVotes(kindPrecommit, roleVoting, "", pick(rng, fresh, need))
 		}
 		return
 	}
@@ -818,6 +869,12 @@ func randomScript(rng *rand.Rand, p caseParams) func(*sim) {
 			s.randomEvent(rng, p.PEquiv)
 			if rng.Float64() < p.PDeliver {
 				s.deliver()
+				// further nil-voted rounds are waiting: the kernel offers the next
+				// one at once; the strategy may read it before or after the next
+				// kernel step.
+				for len(s.nvrQueue) > 0 && int(s.st.updates) < p.Target && rng.IntN(3) != 0 {
+					s.deliver()
+				}
 			}
 		}
 	}
@@ -859,6 +916,36 @@ var directedCases = []directed{
 		// first output then carries Voting (1,1) and NilVotedRound (1,0).
 		s.addVotes(kindPrecommit, roleVoting, "", []int{0, 1, 2})
 		s.deliver()
+	}},
+	{"directed-two-nil-committed-rounds-while-strategy-busy", 4, func(s *sim) {
+		// rounds 0 and 1 both nil-commit between two reads of the strategy: the
+		// first update after that carries the views and NilVotedRound (1,0), the
+		// next one carries nothing but NilVotedRound (1,1).
+		s.addPH(roleVoting, 0)
+		s.deliver()
+		s.addVotes(kindPrecommit, roleVoting, "", []int{0, 1, 2}) // round 0 dies
+		s.addVotes(kindPrecommit, roleVoting, "", []int{1, 2, 3}) // round 1 dies
+		s.deliver()
+		s.deliver()
+	}},
+	{"directed-three-nil-committed-rounds-queue-drained-one-per-update", 4, func(s *sim) {
+		s.deliver()
+		s.addVotes(kindPrecommit, roleVoting, "", []int{0, 1, 2})
+		s.addVotes(kindPrecommit, roleVoting, "", []int{0, 1, 3})
+		s.addVotes(kindPrecommit, roleVoting, "", []int{0, 2, 3})
+		s.deliver()                                       // views + NilVotedRound (1,0)
+		s.deliver()                                       // NilVotedRound (1,1) only, no session changes
+		s.addVotes(kindPrevote, roleVoting, "", []int{1}) // a kernel step slips in
+		s.deliver()                                       // voting view + NilVotedRound (1,2)
+	}},
+	{"directed-nil-voted-round-only-with-session-changes", 4, func(s *sim) {
+		s.deliver()
+		s.addVotes(kindPrecommit, roleVoting, "", []int{0, 1, 2})
+		s.addVotes(kindPrecommit, roleVoting, "", []int{0, 1, 3})
+		s.addVotes(kindPrecommit, roleVoting, "", []int{0, 2, 3})
+		s.deliver() // views + NilVotedRound (1,0)
+		s.deliver() // NilVotedRound (1,1) only
+		s.deliver() // NilVotedRound (1,2) only, with RoundSessionChanges
 	}},
 	{"directed-commit-then-late-precommit", 4, func(s *sim) {
 		a := string(s.addPH(roleVoting, 0))
@@ -1101,7 +1188,7 @@ func TestVerif_C17(t *testing.T) {
 		t.Skip("not started by the /verif driver")
 	}
 	defer r.Finish()
-	r.SetRule("Each case runs a real tmgossip.ChattyStrategy against a recording broadcaster (unbuffered Outgoing* channels) and feeds it 2-25 NetworkViewUpdates produced by a simulator of the mirror kernel's gossip output: 4-7 ed25519 validators from tmconsensustest.NewEd25519Fixture, really signed proposed headers and votes, views growing per (height, round) with increasing versions, commits (Voting->Committing, new height), nil-committed rounds with NilVotedRound, jumps to the next round, votes for unknown hashes, equivocation with probability 0/0.15/0.4 (equal signer count, different signatures), and delivery after each kernel step with probability 1/0.75/0.5 (the kernel only ever hands over its latest state). 6 directed minimal histories run first. Barrier: acceptance of the next update on the unbuffered input channel; a sentinel view plus a final barrier update end each case. Oracle: set equality between everything in delivered views (headers; kind,height,round,target,key id,signature bytes - from the simulator's own bookkeeping) and everything offered; prevotes/headers that occur only in a NilVotedRound view are not judged (counted as nvr_only_items_not_offered_unjudged). Non-trivial = a case with >= 2 delivered updates whose IN and OUT are both non-empty, digest = SHA-256 of the delivered update history.")
+	r.SetRule("Each case runs a real tmgossip.ChattyStrategy against a recording broadcaster (unbuffered Outgoing* channels) and feeds it 2-25 NetworkViewUpdates produced by a simulator of the mirror kernel's gossip output: 4-7 ed25519 validators from tmconsensustest.NewEd25519Fixture, really signed proposed headers and votes, views growing per (height, round) with increasing versions, commits (Voting->Committing, new height), nil-committed rounds queued as NilVotedRound (one per update, oldest first: together with views, alone, alone with RoundSessionChanges), jumps to the next round, votes for unknown hashes, precommit messages that nil-commit a round at once (so rounds die back to back), equivocation with probability 0/0.15/0.4 (equal signer count, different signatures), and delivery after each kernel step with probability 1/0.75/0.5 (the kernel only ever hands over its latest state). 9 directed minimal histories run first. Barrier: acceptance of the next update on the unbuffered input channel; a sentinel view plus a final barrier update end each case. Oracle: set equality between everything in delivered views (headers; kind,height,round,target,key id,signature bytes - from the simulator's own bookkeeping) and everything offered; prevotes/headers that occur only in a NilVotedRound view are not judged (counted as nvr_only_items_not_offered_unjudged). Non-trivial = a case with >= 2 delivered updates whose IN and OUT are both non-empty, digest = SHA-256 of the delivered update history.")
 
 	if err := selfCheck(); err != nil {
 		r.Inconclusive("self check failed: %v", err)
@@ -1127,6 +1214,10 @@ func TestVerif_C17(t *testing.T) {
 		agg["updates_delivered"] += co.st.updates
 		agg["views_delivered"] += co.st.views
 		agg["nil_voted_round_views_delivered"] += co.st.nvr
+		agg["nil_voted_rounds_queued_behind_an_unsent_one"] += co.st.nvrQueuedBehind
+		agg["updates_with_nil_voted_round_only"] += co.st.nvrOnly
+		agg["updates_with_nil_voted_round_and_session_changes_only"] += co.st.nvrOnlyWithRSC
+		agg["updates_with_nil_voted_round_and_views"] += co.st.nvrWithViews
 		agg["kernel_commits"] += co.st.commits
 		agg["kernel_nil_round_advances"] += co.st.advances
 		agg["kernel_round_jumps"] += co.st.jumps
